@@ -101,7 +101,7 @@ def inline_lets(expr, body, upto, depth=0):
         return '(' + inline_lets(body[bind.end():j].strip(), body, bind.start(), depth + 1) + ')'
     return re.sub(r'\b[a-z_][a-z0-9_]*\b', repl, expr)
 
-EM = dict(fields={'on_counterparty_tx_csv': lambda r: 'on_counterparty_tx_csv', 'offered': lambda r: 'offered',
+EM = dict(fields={'on_counterparty_tx_csv': lambda r: 'on_counterparty_tx_csv', 'on_holder_tx_csv': lambda r: 'on_holder_tx_csv', 'offered': lambda r: 'offered',
                   'cltv_expiry': lambda r: 'cltv_expiry'})
 
 def tr(expr, allowed):
@@ -163,15 +163,17 @@ def main(out_path):
         if len(a2) != len(bp_names): raise TranslateError("%s: build_package called with %d arguments" % (fn_name, len(a2)))
         spendable = inline_lets(a2[bp_idx], body, p2)
         return creation, spendable, one(args[builder_idx]), one(a2[bp_idx])
-    csv = {'height', 'on_counterparty_tx_csv'}
-    htl = {'height', 'offered', 'cltv_expiry', 'on_counterparty_tx_csv'}
+    # (`on_holder_tx_csv` — the delay on OUR outputs — is a translatable name too, as a trailing defaulted parameter: a call site that picks the
+    # wrong one of the two delays is then refuted by Props/C06 `revoked_to_local_deadline_is_counterparty_csv` instead of stopping the translator)
+    csv = {'height', 'on_counterparty_tx_csv', 'on_holder_tx_csv'}
+    htl = {'height', 'offered', 'cltv_expiry', 'on_counterparty_tx_csv', 'on_holder_tx_csv'}
     for (lean_name, fn_name, builder, idx, variant, allowed, sig, doc) in [
         ('toLocal', 'check_spend_counterparty_transaction', 'RevokedOutput::build', ro_idx, 'PackageSolvingData::RevokedOutput', csv,
-         '(height on_counterparty_tx_csv : Nat)', 'the revoked commitment\'s to_local output'),
+         '(height on_counterparty_tx_csv : Nat) (on_holder_tx_csv : Nat := 0)', 'the revoked commitment\'s to_local output'),
         ('htlc', 'check_spend_counterparty_transaction', 'RevokedHTLCOutput::build', rh_idx, 'PackageSolvingData::RevokedHTLCOutput', htl,
-         '(height on_counterparty_tx_csv : Nat) (offered : Bool) (cltv_expiry : Nat)', 'an HTLC output of the revoked commitment'),
+         '(height on_counterparty_tx_csv : Nat) (offered : Bool) (cltv_expiry : Nat) (on_holder_tx_csv : Nat := 0)', 'an HTLC output of the revoked commitment'),
         ('secondStage', 'check_spend_counterparty_htlc', 'RevokedOutput::build', ro_idx, 'PackageSolvingData::RevokedOutput', csv,
-         '(height on_counterparty_tx_csv : Nat)', 'the output of a revoked second-stage (HTLC-success / HTLC-timeout) transaction'),
+         '(height on_counterparty_tx_csv : Nat) (on_holder_tx_csv : Nat := 0)', 'the output of a revoked second-stage (HTLC-success / HTLC-timeout) transaction'),
     ]:
         creation, spendable, raw_c, raw_s = site(fn_name, builder, idx, variant)
         L.append('/-- channelmonitor.rs %s, %s: the `outpoint_confirmation_height` argument of %s is `%s`' % (fn_name, doc, builder, raw_c))
